@@ -7,7 +7,7 @@ import time
 
 from . import build, run
 
-CONFIGS = ["base", "dbg"]
+CONFIGS = ["rel", "base", "dbg"]
 
 
 def build_pure(config):
